@@ -267,7 +267,12 @@ func runC02(c *runCtx) error {
 		for j, b := range atoms {
 			for _, op := range []string{"&", "|"} {
 				n++
-				if !c.thorough() && !c.search && (i*7+j*3+len(op))%5 != int(c.seed%5) {
+				// quick tier: every pair of range-producing atoms (the interval case analysis is
+				// where a slip hides), a deterministic fifth of the other pairs
+				rangeish := func(t string) bool {
+					return strings.Contains(t, ">") || strings.Contains(t, "<") || strings.Contains(t, "between")
+				}
+				if !c.thorough() && !c.search && !(rangeish(a) && rangeish(b)) && (i*7+j*3+len(op))%5 != int(c.seed%5) {
 					continue
 				}
 				c02Case(e, fmt.Sprintf("(%s) %s (%s)", a, op, b), univ, st, n%4 == 0)
